@@ -118,6 +118,15 @@ def events_for_case(a, cid, gam, K, ids):
         else:
             s = Scores(pos, neg, **kw)
         e["post"] = alpha_obj(s, inv)
+        # size / ratio accessors and equality (beyond the listed property: EXT clause)
+        e["sizes"] = {k_: int(getattr(s, k_)) for k_ in ("nb_hard_pos", "nb_hard_neg", "nb_hard_samples", "nb_all_pos",
+                                                        "nb_all_neg", "nb_all_samples", "nb_easy_samples")}
+        e["ratios"] = {k_: gamma.proj_rat(getattr(s, k_), 2000) for k_ in
+                       ("hard_pos_ratio", "hard_neg_ratio", "easy_pos_ratio", "easy_neg_ratio", "easy_ratio", "hard_ratio")} \
+            if len(pos) + a["ep"] > 0 and len(neg) + a["en"] > 0 else {}
+        twin = Scores(np.sort(pos), np.sort(neg), **dict(kw, is_sorted=True))
+        e["eq_twin"] = bool(s == twin and twin == s)
+        e["neq_other"] = bool(not (s == Scores(np.sort(pos), np.sort(neg), **dict(kw, is_sorted=True, nb_easy_pos=a["ep"] + 1))))
     except Exception as ex:  # noqa
         e["exc"] = f"{type(ex).__name__}: {ex}"[:200]
         return evs
